@@ -5,10 +5,10 @@ SPEC = dict(
     lean_targets=["SwayVerif.Props.C12"], audit="SwayVerif/Audit/C12.lean",
     theorems=["C12_readback", "C12_member_readback", "slots_contiguous", "serialize_none_iff", "C12_disjoint_partial",
               "C12_readback_all_partial", "key_preimage_injective", "key_preimage_domain", "C12_prop_of_model"],
-    steps=[dict(bin="sv_c12", area="c12", n_quick=48, n_thorough=360, corpus="corpus/c12.txt",
+    steps=[dict(bin="sv_c12", area="c12", n_quick=72, n_thorough=360, corpus="corpus/c12.txt",
                 dist_keys=("kind", "nsl", "keykind", "unitvar", "nsdepth", "nsubs"), timeout=3000,
                 nontrivial=lambda case, impl, kv: kv.get("kind") in ("struct", "enum", "str", "decl"))],
-    rule="random `storage {..}` declarations (12 fields per contract: u8/u16/u32/u64/bool/b256/u256/str[N], nested tuples, "
+    rule="random `storage {..}` declarations (24 fields per random contract; a SYSTEMATIC family of 91 fields — every leaf type x 13 wrapper shapes, all values non-zero and distinct per position, one contract at the root and one in a namespace, explicit keys included — and a fixed regression scenario run first on every run; random values of sub-word types are never zero; random types: u8/u16/u32/u64/bool/b256/u256/str[N], nested tuples, "
          "named structs, enums incl. unit variants and Option<T>, namespaces up to depth 2 with repeated field names, "
          "explicit `in` keys incl. the top of the key space) compiled by the real forc-pkg/sway-core; per field one case: "
          "emitted storage_slots vs Lean serializeToSlots (agree), in-VM `storage.f.read()` + raw memory image + reads of "
